@@ -83,6 +83,8 @@ def _cases(draw, tier):
         end = edge(['at-end', 'at-end', 'inside', 'inside', 'before', 'after', 'far-after', 'far-after', 'at-start'])
         if end < start:
             start, end = end, start
+        if min(x[0] for x in ext) == 0 and draw(st.integers(0, 5)) == 0:
+            start, end = 0, 0        # the smallest explicit window
     return {'isa': cfg, 'items': b.items, 'start': start, 'end': end, 'fill': draw(st.integers(0, 255)),
             'feats': sorted(feats), 'stale_output': draw(st.integers(0, 3)) == 0}
 
